@@ -35,6 +35,41 @@ pub fn run_case(toks: &[&str], em: &mut Emitter) {
                 let r = rdp::nla::asn1::from_der(&mut back, &w);
                 Obs::new(format!("w={} r={}", hex(&w), match r { Ok(_) => hex(&back), Err(_) => "E".into() })).nt(true)
             }
+            "per_ber_oct" | "per_ber_int" | "per_ber_cr" => {
+                // BER (not DER) encodings built here, read by the library's `from_ber`: any length form is legal
+                use crate::refsrv::{ber_len_form, cat};
+                let form: u8 = t[1].parse().unwrap();
+                match t[0].as_str() {
+                    "per_ber_oct" => {
+                        let b = unhex(&t[2]);
+                        let w = cat(&[&[0x04], &ber_len_form(b.len(), form), &b]);
+                        let mut back = rdp::nla::asn1::OctetString::new();
+                        let r = rdp::nla::asn1::from_ber(&mut back, &w);
+                        Obs::new(format!("r={}", match r { Ok(_) => if back.is_empty() { "-".to_string() } else { hex(&back) }, Err(_) => "E".into() })).nt(true)
+                    }
+                    "per_ber_int" => {
+                        let n = nat(&t[2]) as u32;
+                        let mut c: Vec<u8> = n.to_be_bytes().to_vec(); while c.len() > 1 && c[0] == 0 && c[1] < 0x80 { c.remove(0); } if c[0] >= 0x80 { c.insert(0, 0); }
+                        let w = cat(&[&[0x02], &ber_len_form(c.len(), form), &c]);
+                        let mut back = 0 as rdp::nla::asn1::Integer;
+                        let r = rdp::nla::asn1::from_ber(&mut back, &w);
+                        Obs::new(format!("r={}", match r { Ok(_) => back.to_string(), Err(_) => "E".into() })).nt(true)
+                    }
+                    _ => {
+                        let ud = unhex(&t[2]);
+                        let w = crate::refsrv::connect_response_body(&ud, form);
+                        Obs::new(format!("r={}", crate::props::c05::ber_userdata(&w))).nt(true)
+                    }
+                }
+            }
+            "per_gcc_version" => {
+                // the version constants: what the client announces and what it recognises are the same numbers
+                use rdp::core::gcc::Version;
+                let name = |v: Version| match v { Version::RdpVersion => "v4", Version::RdpVersion5plus => "v5", Version::Unknown => "unk" };
+                let rt: Vec<String> = [Version::RdpVersion, Version::RdpVersion5plus].iter().map(|v| format!("{:08x}:{}", *v as u32, name(Version::from(*v as u32)))).collect();
+                let core = rdp::model::data::to_vec(&rdp::core::gcc::client_core_data(None));
+                Obs::new(format!("rt={} core={}", rt.join(","), hex(&core[..4]))).nt(true)
+            }
             "per_rt_int" => {
                 let n = nat(&t[1]) as u32;
                 let mut w = Cursor::new(vec![]);
@@ -113,6 +148,14 @@ pub fn generate_roundtrips(thorough: bool, r: &mut Rng, part: (usize, usize), em
         for &n in &[0u64, 1, 0x7f, 0x80, 0xff, 0x100, 0x7fff, 0x8000, 0xffff, 0x10000, 0x7fffff, 0x800000, 0xffffff, 0x1000000, 0x7fffffff, 0x80000000, 0x80000001, 0xfffffffe, 0xffffffff] { emit(em, format!("per_asn1_int {}", n)); }
         for _ in 0..(if thorough { 2000 } else { 200 }) { let n = r.next() as u32 >> r.below(32); emit(em, format!("per_asn1_int {}", n)); }
         for &l in &[0usize, 1, 2, 126, 127, 128, 129, 255, 256, 257, 1000, 65535, 65536] { let b = r.bytes(l); emit(em, format!("per_asn1_oct {}", hex(&b))); }
+        // BER length forms (shortest, one octet longer, two-octet long form) read by `from_ber`; the MCS
+        // connect response in each form; the GCC version constants
+        for form in 0..3u8 {
+            for &l in &[0usize, 1, 2, 127, 128, 129, 255, 256, 300] { let b = r.bytes(l); emit(em, format!("per_ber_oct {} {}", form, if b.is_empty() { "-".to_string() } else { hex(&b) })); }
+            for &n in &[0u64, 1, 0x7f, 0x80, 0xff, 0x100, 0xffff, 0x10000, 0x7fffffff, 0xffffffff] { emit(em, format!("per_ber_int {} {}", form, n)); }
+            for &l in &[1usize, 40, 127, 128, 200, 300] { let b = r.bytes(l); emit(em, format!("per_ber_cr {} {}", form, hex(&b))); }
+        }
+        emit(em, "per_gcc_version".to_string());
     }
     // all PER lengths in the domain 0..=0x7fff (and a few beyond it, where nothing is claimed)
     for n in (0..=0x7fffu32).filter(|n| (*n as usize) % part.1 == part.0) { emit(em, format!("per_rt_len {}", n)); }
